@@ -596,14 +596,17 @@ def asPathPrepend (a : Attribute) (asn : Nat) : Out Attribute :=
         if t = 2 ∧ l < 255 then pure { a with data := .bin ([t, l + 1] ++ beN 4 asn ++ rest) }
         else pure { a with data := .bin ([2, 1] ++ beN 4 asn ++ b) }
 
+/-- `Attribute::put_fixed_len` (C04 repair): two-octet length when the stored flags carry EXTENDED -/
+def fixedLen (flags len : Nat) : Bytes := if flags / 16 % 2 = 1 then beN 2 len else [len]
+
 /-- `Attribute::encode` (wire bytes of one attribute) -/
 def encodeAttr (a : Attribute) : Out Bytes :=
   if a.code = 1 then do
     let v ← unwrapO a.value
-    pure [a.flags, a.code, 1, v % 256]
+    pure ([a.flags, a.code] ++ fixedLen a.flags 1 ++ [v % 256])
   else if a.code = 4 ∨ a.code = 5 ∨ a.code = 9 then do
     let v ← unwrapO a.value
-    pure ([a.flags, a.code, 4] ++ beN 4 v)
+    pure ([a.flags, a.code] ++ fixedLen a.flags 4 ++ beN 4 v)
   else do
     let b ← unwrapO a.binary
     let ext := b.length > 255 ∨ a.flags / 16 % 2 = 1
@@ -612,21 +615,22 @@ def encodeAttr (a : Attribute) : Out Bytes :=
 
 def findCode (code : Nat) (as : List Attribute) : Option Attribute := as.find? (fun a => a.code = code)
 
-/-- the accessors `impl Ord for RibEntry` evaluates on each side when every earlier step ties:
-    `attr_local_preference`, `attr_as_path_length`, `attr_origin`, `attr_originator_id` -/
-def cmpUse (as : List Attribute) : Out Unit := do
-  match findCode 5 as with
+/-- `attrs.iter().find(|a| a.code() == c).map(|a| a.value().unwrap())` -/
+def needVal (c : Nat) (as : List Attribute) : Out Unit :=
+  match findCode c as with
   | some a => (unwrapO a.value).void
-  | none => pure ()
+  | none => .ok ()
+
+/-- `attr_as_path_length` -/
+def needLen (as : List Attribute) : Out Unit :=
   match findCode 2 as with
   | some a => (asPathLength a).void
-  | none => pure ()
-  match findCode 1 as with
-  | some a => (unwrapO a.value).void
-  | none => pure ()
-  match findCode 9 as with
-  | some a => (unwrapO a.value).void
-  | none => pure ()
+  | none => .ok ()
+
+/-- the accessors `impl Ord for RibEntry` evaluates on each side when every earlier step ties:
+    `attr_local_preference`, `attr_as_path_length`, `attr_origin`, `attr_originator_id` -/
+def cmpUse (as : List Attribute) : Out Unit :=
+  needVal 5 as >>= fun _ => needLen as >>= fun _ => needVal 1 as >>= fun _ => needVal 9 as
 
 /-- policy evaluation as far as it reads attribute structure: `Condition::AsPathLength` then the
     `as_prepend` action (fixed AS 65000, repeat 1); result = the new AS_PATH value -/
@@ -697,6 +701,15 @@ def encode2Use (a : Attribute) : Out Unit :=
     let _ ← encodeAttr a
     pure ()
 
+/-- run `f` on every element, stop at the first failure (`for a in attr { ... }`) -/
+def runAll {α β} (f : α → Out β) : List α → Out Unit
+  | [] => .ok ()
+  | x :: xs =>
+      match f x with
+      | .ok _ => runAll f xs
+      | .err => .err
+      | .panic => .panic
+
 /-! ## the path a converted attribute is stored in (mirrored by the harness) -/
 
 def originIgp : Attribute := { code := 1, flags := 0x40, data := .val 0 }
@@ -729,8 +742,8 @@ def useOf (a : Attribute) : Use :=
     enc := encodeAttr a
     cmp := cmpUse as
     pol := polUse as
-    msg4 := (as.mapM encodeAttr).void
-    msg2 := (as.mapM encode2Use).void }
+    msg4 := runAll encodeAttr as
+    msg2 := runAll encode2Use as }
 
 /-! ## NLRI (bgp.rs `Ipv4Net`/`Ipv6Net`, labeled.rs, vpn.rs, mpls.rs, rd.rs) -/
 
@@ -915,61 +928,72 @@ def Fam.width : Fam → Nat
   | .v4 | .lv4 | .vpn4 => 4
   | _ => 16
 
+/-- the prefix part shared by every decoder: `bits` significant bits of a `w`-octet address -/
+def decPrefix (w bits : Nat) (bs : Bytes) : Out (Nat × Bytes) :=
+  if bits > w * 8 ∨ bs.length < ceil8 bits then .err
+  else .ok (padAddr w (bs.take (ceil8 bits)), bs.drop (ceil8 bits))
+
+/-- `Ipv4Net::decode` / `Ipv6Net::decode`: (addr, mask, rest) -/
+def decodePlain (w : Nat) (bs : Bytes) : Out (Nat × Nat × Bytes) :=
+  match bs with
+  | [] => .err
+  | bits :: rest =>
+      match decPrefix w bits rest with
+      | .ok (a, rest') => .ok (a, bits, rest')
+      | .err => .err
+      | .panic => .panic
+
+/-- `LabeledV4Nlri::decode` / `LabeledV6Nlri::decode` (reach): (labels, addr, mask, rest) -/
+def decodeLabeled (w : Nat) (bs : Bytes) : Out (List Nat × Nat × Nat × Bytes) :=
+  match bs with
+  | [] => .err
+  | total :: rest =>
+      if bs.length < 4 ∨ total < 24 then .err
+      else
+        match decLabels rest with
+        | none => .err
+        | some (ls, rest') =>
+            let lb := ls.length * 24 % 256
+            if total < lb then .err
+            else
+              match decPrefix w (total - lb) rest' with
+              | .ok (a, rest'') => .ok (ls, a, total - lb, rest'')
+              | .err => .err
+              | .panic => .panic
+
+/-- `VpnV4Nlri::decode` / `VpnV6Nlri::decode`: (labels, rd, addr, mask, rest).  Since the C03 repair
+    (dd9ba2a) the label bit count is a `usize`: no truncation, no overflow. -/
+def decodeVpn (w : Nat) (bs : Bytes) : Out (List Nat × Rd × Nat × Nat × Bytes) :=
+  match bs with
+  | [] => .err
+  | total :: rest =>
+      if bs.length < 12 ∨ total < 88 then .err
+      else
+        match decLabels rest with
+        | none => .err
+        | some (ls, rest') =>
+            let lb := ls.length * 24
+            if total < lb + 64 then .err
+            else if total - lb - 64 > w * 8 then .err
+            else
+              match decRd (rest'.take 8) with
+              | none => .err
+              | some rd =>
+                  match decPrefix w (total - lb - 64) (rest'.drop 8) with
+                  | .ok (a, rest'') => .ok (ls, rd, a, total - lb - 64, rest'')
+                  | .err => .err
+                  | .panic => .panic
+
 /-- one `Nlri::decode` (reach, no add-path) from the remaining bytes: value and rest.
-    `.err` = the UPDATE is malformed, `.panic` = debug overflow in vpn.rs (`label_bits + 64`). -/
+    `.err` = the UPDATE is malformed. -/
 def decodeOne (f : Fam) (bs : Bytes) : Out (Nlri × Bytes) :=
-  let w := f.width
   match f with
-  | .v4 | .v6 =>
-      match bs with
-      | [] => .err
-      | bits :: rest =>
-          if bits > w * 8 ∨ rest.length < ceil8 bits then .err
-          else
-            let a := padAddr w (rest.take (ceil8 bits))
-            .ok (if f = .v4 then .v4 a bits else .v6 a bits, rest.drop (ceil8 bits))
-  | .lv4 | .lv6 =>
-      match bs with
-      | [] => .err
-      | total :: rest =>
-          if bs.length < 4 ∨ total < 24 then .err
-          else
-            match decLabels rest with
-            | none => .err
-            | some (ls, rest') =>
-                let lb := ls.length * 24 % 256
-                if total < lb then .err
-                else
-                  let bits := total - lb
-                  if bits > w * 8 ∨ rest'.length < ceil8 bits then .err
-                  else
-                    let a := padAddr w (rest'.take (ceil8 bits))
-                    .ok (if f = .lv4 then .lv4 ls a bits else .lv6 ls a bits, rest'.drop (ceil8 bits))
-  | .vpn4 | .vpn6 =>
-      match bs with
-      | [] => .err
-      | total :: rest =>
-          if bs.length < 12 ∨ total < 88 then .err
-          else
-            match decLabels rest with
-            | none => .err
-            | some (ls, rest') =>
-                let lb := ls.length * 24 % 256
-                if lb + 64 > 255 then .panic
-                else if total < lb + 64 then .err
-                else
-                  let bits := total - lb - 64
-                  if bits > w * 8 then .err
-                  else
-                    match decRd (rest'.take 8) with
-                    | none => .err
-                    | some rd =>
-                        let rest'' := rest'.drop 8
-                        if rest''.length < ceil8 bits then .err
-                        else
-                          let a := padAddr w (rest''.take (ceil8 bits))
-                          .ok (if f = .vpn4 then .vpn4 ls rd a bits else .vpn6 ls rd a bits,
-                               rest''.drop (ceil8 bits))
+  | .v4 => (decodePlain 4 bs).map fun r => (.v4 r.1 r.2.1, r.2.2)
+  | .v6 => (decodePlain 16 bs).map fun r => (.v6 r.1 r.2.1, r.2.2)
+  | .lv4 => (decodeLabeled 4 bs).map fun r => (.lv4 r.1 r.2.1 r.2.2.1, r.2.2.2)
+  | .lv6 => (decodeLabeled 16 bs).map fun r => (.lv6 r.1 r.2.1 r.2.2.1, r.2.2.2)
+  | .vpn4 => (decodeVpn 4 bs).map fun r => (.vpn4 r.1 r.2.1 r.2.2.1 r.2.2.2.1, r.2.2.2.2)
+  | .vpn6 => (decodeVpn 16 bs).map fun r => (.vpn6 r.1 r.2.1 r.2.2.1 r.2.2.2.1, r.2.2.2.2)
 
 /-- `decode_nlri_list`; fuel = number of bytes (every entry consumes at least one) -/
 def decodeList (f : Fam) : Nat → Bytes → Out (List Nlri)
